@@ -34,6 +34,18 @@ Proof. intros xs x y H; split; [apply dense_rank_mono; exact H | apply dense_ran
 Theorem C11_local_eq_global_on_full_module : forall n x, x < n -> dense_rank (seq 0 n) x = x.
 Proof. exact dense_rank_full. Qed.
 
+(* boolean masks with one entry per cell / branch / compartment in view select BY POSITION
+   among them, identically in local and global scope; the all-True mask selects the view *)
+Theorem C11_mask_is_positional : forall t sh v s lv m,
+  length m = length (np_unique (map (global_index t lv) v)) ->
+  select_step t sh v s lv (IMask m)
+  = Some (filter (fun r => mem (global_index t lv r) (mask_select m (np_unique (map (global_index t lv) v)))) v) /\
+  select_step t sh v Local lv (IMask m) = select_step t sh v Global lv (IMask m).
+Proof. intros; split; [now apply mask_step_exact | now apply mask_step_scope_independent]. Qed.
+Theorem C11_all_true_mask_selects_the_view : forall t sh v s lv,
+  select_step t sh v s lv (IMask (repeat true (length (np_unique (map (global_index t lv) v))))) = Some v.
+Proof. intros. apply mask_all_true_selects_everything. intros r Hr. apply np_unique_In. now apply in_map. Qed.
+
 (* non-vacuity: cells with (2, 1) branches and (2,1 | 3) compartments; local cell 1, local
    branch 0, local comps [0; 2] are rows 3 and 5 *)
 Example C11_nonvacuous :
